@@ -175,6 +175,42 @@ Theorem conf_remove_before_refused :
     conf_step init w all b = None <-> (supports_timestamp b = false /\ exists T, w = WBefore T).
 Proof. exact conf_step_refused. Qed.
 
+(* Interrupted and continued (mapproxy-seed --cleanup --progress-file F, killed, then --continue), directory
+   strategy: the first run dies while it handles the k-th level directory, having removed an arbitrary part of it
+   (keep); the continued run skips what DirectoryCleanupProgress.can_skip allows.  The result equals that of an
+   uninterrupted cleanup, provided the level directory names from position k on do not sort before the k-th name
+   in the order can_skip uses (numbers as numbers, other names as strings). *)
+Theorem resume_covers :
+  forall lay t k keep c lk dk,
+    nth_error (t_levels t) k = Some lk -> level_dir lay lk = Some dk ->
+    (forall j lj dj, (k <= j)%nat -> nth_error (t_levels t) j = Some lj -> level_dir lay lj = Some dj ->
+       key_ltb (dname_key dj) (dname_key dk) = false) ->
+    resumed (BFile lay) t k keep c = simple_cleanup (BFile lay) t c.
+Proof. exact resume_covers_l. Qed.
+
+(* With ascending levels (the configuration loader sorts them) that order holds for every layout with level
+   directories - tc, mp, tms, and arcgis below level 100 - so: interrupted at any level k with any part of it
+   removed, then continued = uninterrupted. *)
+Theorem resume_covers_ascending :
+  forall lay t k keep c lk dk,
+    nth_error (t_levels t) k = Some lk -> level_dir lay lk = Some dk ->
+    (forall i j li lj, (i <= j)%nat -> nth_error (t_levels t) i = Some li -> nth_error (t_levels t) j = Some lj -> li <= lj) ->
+    (lay = LArcgis -> forall l, In l (t_levels t) -> 0 <= l < 100) ->
+    resumed (BFile lay) t k keep c = simple_cleanup (BFile lay) t c.
+Proof. exact resume_covers_ascending_l. Qed.
+
+(* A tile that is a symbolic link to a shared single-colour file: its age is the time of the link (e_mtime);
+   the time of the file it points to (e_target) never influences what is removed. *)
+Theorem link_target_irrelevant :
+  forall b q msize t walked e x,
+    removed_by b q msize t walked (mkEntry (e_place e) (e_mtime e) (e_isdir e) x) = removed_by b q msize t walked e.
+Proof. exact link_target_irrelevant_l. Qed.
+
+(* levels: {to: 0} selects level 0 only (0 is a bound like any other). *)
+Theorem levels_to_zero :
+  forall nlevels, 0 < nlevels -> levels_range None (Some 0) nlevels = [0].
+Proof. exact levels_range_to_zero. Qed.
+
 (* ---- refuted: the side condition dim_visible is necessary (known finding F15, reproduced on the implementation) *)
 
 (* F15: directory strategy skips dimension directories. *)
